@@ -83,7 +83,7 @@ func canonical(nd *sim.Node) ([]*types.WorkObject, error) {
 }
 
 type hStats struct {
-	credits, qiCoinbases, lockupRewards, claims, convCredits int
+	credits, qiCoinbases, lockupRewards, claims, convCredits, multiShare, uncles int
 }
 
 func checkRewards(n *sim.Net, ul *unlockLog, rewardOnly map[common.AddressBytes]bool) (fp, msg string, hs hStats) {
@@ -96,6 +96,29 @@ func checkRewards(n *sim.Net, ul *unlockLog, rewardOnly map[common.AddressBytes]
 	byNumber := map[uint64]*types.WorkObject{}
 	for _, b := range chain {
 		byNumber[b.NumberU64(sim.Zone)] = b
+	}
+	// ---- H0: a workshare is included at most once on the chain, is not itself a chain block, and
+	// sits within the inclusion depth of its carrier
+	includedIn := map[common.Hash]uint64{}
+	canonicalHash := map[common.Hash]bool{}
+	for _, b := range chain {
+		canonicalHash[b.Hash()] = true
+	}
+	for _, b := range chain {
+		num := b.NumberU64(sim.Zone)
+		for _, u := range b.Uncles() {
+			hs.uncles++
+			if prev, dup := includedIn[u.Hash()]; dup {
+				return "workshare-included-twice", fmt.Sprintf("workshare %x is an uncle of block #%d and of block #%d", u.Hash().Bytes()[:4], prev, num), hs
+			}
+			includedIn[u.Hash()] = num
+			if canonicalHash[u.Hash()] {
+				return "workshare-is-chain-block", fmt.Sprintf("block #%d carries canonical block %x as an uncle", num, u.Hash().Bytes()[:4]), hs
+			}
+			if u.NumberU64() > num || u.NumberU64()+uint64(params.WorkSharesInclusionDepth) < num {
+				return "workshare-outside-depth", fmt.Sprintf("block #%d carries an uncle of height %d", num, u.NumberU64()), hs
+			}
+		}
 	}
 	lockupAccepted := map[bool]*big.Int{false: new(big.Int), true: new(big.Int)} // key: miner in Qi ledger
 	lockupClaimed := map[bool]*big.Int{false: new(big.Int), true: new(big.Int)}
@@ -110,29 +133,56 @@ func checkRewards(n *sim.Net, ul *unlockLog, rewardOnly map[common.AddressBytes]
 			}
 		}
 		if num > uint64(params.WorkSharesInclusionDepth) {
-			target := byNumber[num-uint64(params.WorkSharesInclusionDepth)]
-			shares := 1
-			for _, blk := range []uint64{num, num - 1, num - 2} {
-				for _, u := range byNumber[blk].Uncles() {
+			depth := uint64(params.WorkSharesInclusionDepth)
+			target := byNumber[num-depth]
+			// the rewarded shares, in the order the protocol pays them: the target block itself, then the
+			// uncles at the target's height carried by the parent, grandparent, ..., target block, then
+			// by this block
+			shares := []*types.WorkObjectHeader{target.WorkObjectHeader()}
+			for i := uint64(1); i <= depth+1; i++ {
+				carrier := b
+				if i <= depth {
+					carrier = byNumber[num-i]
+				}
+				for _, u := range carrier.Uncles() {
 					if u.NumberU64() == target.NumberU64(sim.Zone) {
-						shares++
+						shares = append(shares, u)
 					}
 				}
 			}
-			if len(coinbases) != shares {
-				return "coinbase-count", fmt.Sprintf("block #%d emits %d coinbase ETXs for %d rewarded shares of block #%d", num, len(coinbases), shares, target.NumberU64(sim.Zone)), hs
+			if len(shares) > 1 {
+				hs.multiShare++
 			}
-			if shares == 1 {
-				pt := hc.GetHeaderByHash(b.PrimeTerminusHash())
-				if pt == nil {
-					return "prime-terminus-missing", "prime terminus of a canonical block unknown to the zone", hs
+			if len(coinbases) != len(shares) {
+				return "coinbase-count", fmt.Sprintf("block #%d emits %d coinbase ETXs for %d rewarded shares of block #%d", num, len(coinbases), len(shares), target.NumberU64(sim.Zone)), hs
+			}
+			pt := hc.GetHeaderByHash(b.PrimeTerminusHash())
+			if pt == nil {
+				return "prime-terminus-missing", "prime terminus of a canonical block unknown to the zone", hs
+			}
+			rate := pt.ExchangeRate()
+			blockReward := misc.CalculateQuaiReward(target.WorkObjectHeader(), target.Difficulty(), rate)
+			blockReward = new(big.Int).Add(blockReward, target.AvgTxFees())
+			blockReward = new(big.Int).Add(blockReward, new(big.Int).Div(target.TotalFees(), common.Big2))
+			// pre-fork split: proportional to each share's intrinsic entropy (an uncle that is a full
+			// block counts with the entropy of its target)
+			ent := make([]*big.Int, len(shares))
+			total := new(big.Int)
+			for i, sh := range shares {
+				h := sh.Hash()
+				blockTarget := new(big.Int).Div(common.Big2e256, sh.Difficulty())
+				if i > 0 && new(big.Int).SetBytes(h.Bytes()).Cmp(blockTarget) <= 0 {
+					h = common.BytesToHash(blockTarget.Bytes())
 				}
-				rate := pt.ExchangeRate()
-				want := misc.CalculateQuaiReward(target.WorkObjectHeader(), target.Difficulty(), rate)
-				want = new(big.Int).Add(want, target.AvgTxFees())
-				want = new(big.Int).Add(want, new(big.Int).Div(target.TotalFees(), common.Big2))
-				cb := coinbases[0]
-				tcb := target.PrimaryCoinbase()
+				ent[i] = common.IntrinsicLogEntropy(h)
+				total.Add(total, ent[i])
+			}
+			paid := new(big.Int)
+			for i, sh := range shares {
+				want := new(big.Int).Div(new(big.Int).Mul(blockReward, ent[i]), total)
+				paid.Add(paid, want)
+				cb := coinbases[i]
+				tcb := sh.PrimaryCoinbase()
 				if tcb.IsInQiLedgerScope() {
 					want = misc.QuaiToQi(target, rate, target.Difficulty(), want)
 				}
@@ -140,15 +190,18 @@ func checkRewards(n *sim.Net, ul *unlockLog, rewardOnly map[common.AddressBytes]
 					want = big.NewInt(1)
 				}
 				if !cb.To().Equal(tcb) {
-					return "coinbase-recipient", fmt.Sprintf("block #%d rewards %x but block #%d was mined by %x", num, cb.To().Bytes(), target.NumberU64(sim.Zone), tcb.Bytes()), hs
+					return "coinbase-recipient", fmt.Sprintf("block #%d coinbase %d rewards %x but share %d of block #%d was mined by %x", num, i, cb.To().Bytes(), i, target.NumberU64(sim.Zone), tcb.Bytes()), hs
 				}
 				if cb.Value().Cmp(want) != 0 {
-					return "coinbase-amount", fmt.Sprintf("block #%d pays %v for block #%d, formula gives %v", num, cb.Value(), target.NumberU64(sim.Zone), want), hs
+					return "coinbase-amount", fmt.Sprintf("block #%d pays %v for share %d/%d of block #%d, formula gives %v", num, cb.Value(), i, len(shares), target.NumberU64(sim.Zone), want), hs
 				}
-				wantData := append(append([]byte{}, target.Data()...), target.Hash().Bytes()...)
+				wantData := append(append([]byte{}, sh.Data()...), sh.Hash().Bytes()...)
 				if string(cb.Data()) != string(wantData) {
-					return "coinbase-data", fmt.Sprintf("block #%d coinbase ETX data does not carry the rewarded header's lock data and hash", num), hs
+					return "coinbase-data", fmt.Sprintf("block #%d coinbase ETX %d data does not carry the rewarded header's lock data and hash", num, i), hs
 				}
+			}
+			if paid.Cmp(blockReward) > 0 {
+				return "coinbase-overpaid", fmt.Sprintf("block #%d pays %v in total for block #%d whose reward is %v", num, paid, target.NumberU64(sim.Zone), blockReward), hs
 			}
 		} else if len(coinbases) != 0 {
 			return "coinbase-early", fmt.Sprintf("block #%d emits a coinbase ETX although no block is %d levels back", num, params.WorkSharesInclusionDepth), hs
@@ -349,13 +402,14 @@ func TestC13H_History(t *testing.T) {
 		log := &trunk.Log
 		dump := func() any { return map[string]any{"history": *log, "events": events} }
 		var agg hStats
+		badAccepted, badRefused := 0, 0
 		check := func(what string) bool {
 			fp, msg, hs := checkRewards(n, ul, rewardOnly)
 			if fp != "" {
 				stats.Violation(t, partH, "C13/H/"+fp, what+": "+msg, dump())
 				return false
 			}
-			if hs.credits > agg.credits {
+			if hs.credits > agg.credits || hs.multiShare > agg.multiShare {
 				agg = hs
 			}
 			return true
@@ -365,9 +419,31 @@ func TestC13H_History(t *testing.T) {
 				t.Fatalf("HARNESS: adopt: %v", err)
 			}
 			a.Traffic(t)
+			if a.ZoneNumber() >= 3 {
+				for k := rapid.SampledFrom([]int{0, 0, 0, 1, 1, 2, 3}).Draw(t, "nShares"); k > 0; k-- {
+					if _, err := a.WorkShare(t); err != nil {
+						t.Fatalf("HARNESS: workshare: %v", err)
+					}
+				}
+			}
 			o := a.DrawMineOpts(t, -1)
 			if rapid.Bool().Draw(t, "rewardOnlyCoinbase") && o.Coinbase.IsInQuaiLedgerScope() {
 				o.Coinbase = ro[rapid.IntRange(0, len(ro)-1).Draw(t, "ro")].Addr
+			}
+			if a.ZoneNumber() >= 5 && rapid.IntRange(0, 4).Draw(t, "badUncles") == 0 {
+				// a block whose uncle list breaks the share rules: refused, or judged by the chain oracle
+				if b, kind := a.MineBadUncles(t, o); b != nil {
+					events = append(events, fmt.Sprintf("block #%d with bad uncle list (%s) accepted", b.Zone().NumberU64(sim.Zone), kind))
+					badAccepted++
+				} else {
+					badRefused++
+				}
+				if err := a.Adopt(); err != nil {
+					t.Fatalf("HARNESS: adopt: %v", err)
+				}
+				if !check(what + " (bad uncles)") {
+					return false
+				}
 			}
 			if _, err := a.MineOne(o); err != nil {
 				t.Fatalf("HARNESS: mine %s: %v\n%s", what, err, strings.Join(a.Log, "\n"))
@@ -427,6 +503,10 @@ func TestC13H_History(t *testing.T) {
 		add(agg.qiCoinbases > 0, "qi_coinbase")
 		add(agg.lockupRewards > 0, "contract_lockup_reward")
 		add(agg.claims > 0, "lockup_claimed")
+		add(agg.multiShare > 0, "multi_share_reward")
+		add(agg.uncles > 0, "uncles_included")
+		add(badRefused > 0, "bad_uncle_list_refused")
+		add(badAccepted > 0, "bad_uncle_list_accepted")
 		add(forked, "reorg")
 		stats.Case(partH, strings.Join(labels, ","), agg.credits > 0, labels...)
 		if agg.credits > 0 && stats.WantSample(partH) {
